@@ -53,7 +53,9 @@ TypeOKr(Post) == /\ Post.C \in 0..65535 /\ Post.X \in 0..65535 /\ Post.Y \in 0..
           /\ Post.PC \in 0..65535 /\ Post.DBR \in 0..255 /\ Post.K \in 0..255 /\ Post.P \in 0..255 /\ Post.E \in {0, 1}
           /\ Post.stp \in {0, 1}
           /\ (Bit(Post.P, FX) = 1 => (Post.X <= 255 /\ Post.Y <= 255))           \* 8-bit index registers have no high byte
-          /\ (Post.E = 1 => (Bit(Post.P, FM) = 1 /\ Bit(Post.P, FX) = 1 /\ Post.S \div 256 = 1))
+          \* emulation mode: 8-bit registers; stack page $01 per WDC, $10 after any push/pull as implemented ("emu_stack_page10"),
+          \* and unchanged by instructions that do not touch the stack
+          /\ (Post.E = 1 => (Bit(Post.P, FM) = 1 /\ Bit(Post.P, FX) = 1 /\ Post.S \div 256 \in {1, 16, Pre.S \div 256}))
 AddrInRanger(r) == \A i \in 1..Len(r.wr) : r.wr[i][1] \in 0..16777215 /\ r.wr[i][2] \in 0..255
 WritesBoundedr(r) == Len(r.wr) <= 4
 OnlyListedFreer(r) == r.free \subseteq {"A", "N", "V", "Z", "C", "PC"}
@@ -64,7 +66,7 @@ Transfers == {"bpl", "bmi", "bvc", "bvs", "bcc", "bcs", "bne", "beq", "bra", "br
 PCAdvancer(Post) == Op(op).mn \notin Transfers => (Post.PC = W16(Pre.PC + InstrLen(op, Bit(Pre.P, FM), Bit(Pre.P, FX))) /\ Post.K = Pre.K)
 \* one evaluation of Step per state; a failing conjunct is named in the output
 Named(c, n) == c \/ (PrintT(<<"FAILED", n, op, m, x, cv>>) /\ FALSE)
-AllOK == (ph = 2 /\ ~Emu) => LET r == R IN      \* the model is native-mode only; Emu runs only export pre-states
+AllOK == ph = 2 => LET r == R IN      \* (Emu = TRUE: the emulation-mode semantics as implemented)
            /\ Named(TypeOKr(r.post), "TypeOK") /\ Named(AddrInRanger(r), "AddrInRange") /\ Named(WritesBoundedr(r), "WritesBounded")
            /\ Named(OnlyListedFreer(r), "OnlyListedFree") /\ Named(BinaryIsDeterminater(r), "BinaryIsDeterminate")
            /\ Named(PCAdvancer(r.post), "PCAdvance")
